@@ -19,23 +19,21 @@ Choices(addr) == LET p == Param(addr) IN
     [] p.kind = "T" -> { [ty |-> "T", v |-> 0], [ty |-> "F", v |-> 0] }
     [] p.kind = "o" -> { [ty |-> "S", v |-> OptionNames[i]] : i \in 1..3 } \cup { [ty |-> "i", v |-> 0], [ty |-> "i", v |-> 2], [ty |-> "c", v |-> 1] }
     [] p.kind = "s" -> { [ty |-> "s", v |-> v] : v \in { <<>>, <<97, 98, 99>>, <<104, 101, 108, 108, 111, 32, 119, 111, 114, 108, 100>>, <<113, 34, 37, 10, 39>> } }
+\* messages are generated for half of the sub-tree array elements (one per container, both indices occur); the model knows all of them
+GenAddresses == SelectSeq(Addresses, LAMBDA a : a \notin {"/sub/sa0", "/subs0/sa0", "/subs1/sa1", "/psub/sa1"})
 Init == st = Default /\ script = <<>>
 Next == /\ Len(script) < MaxMsgs
-        /\ \E i \in 1..Len(Addresses) : \E c \in Choices(Addresses[i]) :
-             /\ st' = SetState(st, Addresses[i], c.ty, c.v)
-             /\ script' = Append(script, [op |-> "set", addr |-> Addresses[i], ty |-> c.ty, v |-> c.v])
+        /\ \E i \in 1..Len(GenAddresses) : \E c \in Choices(GenAddresses[i]) :
+             /\ st' = SetState(st, GenAddresses[i], c.ty, c.v)
+             /\ script' = Append(script, [op |-> "set", addr |-> GenAddresses[i], ty |-> c.ty, v |-> c.v])
 \* ------------------------------------------------------------------ laws of the design
 DefaultSavesNothing == (st = Default) => SaveLines(st) = {}
 RoundTrip == LoadLines(SaveLines(st)) = Restored(st)
 \* every order that respects the dependency rule gives the same result: it suffices that swapping two lines of equal rank is harmless
 \* (checked by loading with the two CHOOSE-independent orders: ranked, and ranked with each rank reversed)
-RECURSIVE Rev(_)
-Rev(q) == IF q = <<>> THEN <<>> ELSE Rev(Tail(q)) \o <<Head(q)>>
-LoadRev(lines) == LET first == Rev(SetToSeq({ ln \in lines : Rank(ln.addr) = 0 }))  rest == Rev(SetToSeq({ ln \in lines : Rank(ln.addr) = 1 })) IN
-  ApplyAll(Default, Concat([i \in 1..Len(first) |-> LineMsgs(first[i])]) \o Concat([i \in 1..Len(rest) |-> LineMsgs(rest[i])]))
-\* the mutant: file order without the rule (dependants first)
-LoadUnordered(lines) == LET rest == SetToSeq({ ln \in lines : Rank(ln.addr) = 1 })  first == SetToSeq({ ln \in lines : Rank(ln.addr) = 0 }) IN
-  ApplyAll(Default, Concat([i \in 1..Len(rest) |-> LineMsgs(rest[i])]) \o Concat([i \in 1..Len(first) |-> LineMsgs(first[i])]))
+LoadRev(lines) == LoadWith(lines, <<0, 1, 2>>, TRUE)
+\* the mutant: no rule (dependants first)
+LoadUnordered(lines) == LoadWith(lines, <<2, 1, 0>>, FALSE)
 OrderIndependent == IF OrderRule THEN LoadRev(SaveLines(st)) = Restored(st) ELSE LoadUnordered(SaveLines(st)) = Restored(st)
 Out == IF "OUT" \in DOMAIN IOEnv THEN IOEnv.OUT ELSE "none"
 Ops == script \o << [op |-> "saveload", seed |-> Len(script)] >>
